@@ -201,3 +201,27 @@ def run_param_batch(chk):
                            {"family": "state", "harness": "h_state", "harness_args": [dev], "stateful": True, "lines": lines[: i + 1],
                             "model_family": None, "observed": o[:1500]})
                 break
+
+
+def run_alloc_refused(chk):
+    """The same request that the allocator refuses (4 GiB and 8 GiB tensors under an allocation
+    limit of 3000 MB) on devices::Naive and devices::Eigen: both must raise primitiv::Error, leave
+    the Parameter unchanged and stay usable — same arguments accepted, same failure reported."""
+    exe = build.build_harness("h_state")
+    lines = ["param 0 2 1,2", "initc 0 65536,16384/1 1", "init 0 2/1 3,4", "initc 0 65536,32768/1 0", "initc 0 3/1 2", "opt 0 momentum", "add 0 0", "update 0"]
+    want = ["ok", "err unchanged", "ok", "err unchanged", "ok", "ok", "ok", "ok"]
+    answers = {}
+    for dev in ("naive", "eigen"):
+        outs, reports = vrun.run_impl(exe, lines, stateful=True, args=[dev], timeout=120)
+        chk.traces += 1
+        answers[dev] = outs
+        for i, (l, o) in enumerate(zip(lines, outs)):
+            chk.count(dev + " " + l, o, o.startswith("err"))
+            if o != want[i]:
+                kind = "crash" if o.startswith("crash") else "answer"
+                chk.report("state:alloc-refused:%s:%s" % (dev, kind),
+                           "device %s: `%s` answers `%s` where `%s` is expected (a tensor the allocator refuses must be reported as primitiv::Error on "
+                           "every backend, with the Parameter unchanged)" % (dev, l, o[:300], want[i]),
+                           {"family": "state", "harness": "h_state", "harness_args": [dev], "stateful": True, "lines": lines[: i + 1],
+                            "model_family": None, "observed": o[:1500], "other_backend": answers.get("naive", [None] * len(lines))[i]})
+                break
